@@ -145,6 +145,9 @@ func genC17(r *rand.Rand, n int, emit func(string)) {
 			c := al[r.Intn(len(al))]
 			if c == did[k] {
 				c = 'x'
+				if did[k] == 'x' {
+					c = 'y'
+				}
 			}
 			did = did[:k] + string(c) + did[k+1:]
 			label = "single-char-change"
